@@ -71,6 +71,10 @@ type ChainCfg struct {
 	InitTime time.Time
 	// mutators applied to the genesis map before InitChain
 	Mutate func(c *Chain, gs map[string]json.RawMessage)
+	// AfterInit (optional) runs between InitChain and the first BeginBlock, with c.Ctx on the state
+	// InitGenesis left (header of InitChain: genesis time, height 0): what was registered at genesis
+	// can be read before block 1 changes it
+	AfterInit func(c *Chain)
 }
 
 type Actor struct {
@@ -93,6 +97,7 @@ type Chain struct {
 	AVSAddr   string // dogfood AVS address
 	ChainIDNR string // chain id without revision
 	Halted    string // non-empty once a Begin/EndBlock/Commit panicked
+	Boot      abci.ResponseBeginBlock // what BeginBlock of block 1 returned (events)
 }
 
 func detBytes(seed uint64, tag string, i int) []byte {
@@ -337,8 +342,12 @@ func NewChain(cfg ChainCfg) *Chain {
 			ConsensusParams: exocoreapp.DefaultConsensusParams, AppStateBytes: stateBytes,
 		})
 	})
+	if cfg.AfterInit != nil {
+		c.Ctx = app.BaseApp.NewContext(false, tmproto.Header{ChainID: cfg.ChainID, Time: cfg.InitTime.UTC()})
+		cfg.AfterInit(c)
+	}
 	c.Header = c.newHeader(1, cfg.InitTime.Add(time.Second))
-	guarded("BeginBlock", func() { app.BeginBlock(abci.RequestBeginBlock{Header: c.Header}) })
+	guarded("BeginBlock", func() { c.Boot = app.BeginBlock(abci.RequestBeginBlock{Header: c.Header}) })
 	c.Ctx = app.BaseApp.NewContext(false, c.Header)
 	return c
 }
